@@ -10,7 +10,7 @@ import sympy as sp
 import z3
 
 from pyvc import loader, symx
-from pyvc.core import Refuted
+from pyvc.core import Refuted, real_self
 from pyvc.ident import Reducer, require_identity
 from pyvc.npx import X, exact, val, vals, xarr
 from pyvc.symx import Explorer, zv
@@ -214,7 +214,7 @@ def run(chk):
         saved = ms._compute_stm
         ms._compute_stm = fake
         try:
-            stub = _Obj(var_dynsys="VAR", orbit=_Obj(initial_state="X0", period="T"), period="T", forward=forward_attr,
+            stub = real_self(S, var_dynsys="VAR", orbit=_Obj(initial_state="X0", period="T"), period="T", forward=forward_attr,
                         make_key=lambda *a: a, get_or_create=lambda k, f: f())
             out = S.compute_stm(stub, steps=77)
         finally:
@@ -241,7 +241,7 @@ def run(chk):
     def th_stability():
         calls = []
         gen = _Obj(compute=lambda domain_obj, options: calls.append((domain_obj, options)))
-        stub = _Obj(domain_obj="MAN", orbit=_Obj(initial_state="X0", period="T"), period="T",
+        stub = real_self(S, domain_obj="MAN", orbit=_Obj(initial_state="X0", period="T"), period="T",
                     eigendecomposition_options=_Obj(to_dict=lambda: {"a": 1}), generator=gen,
                     make_key=lambda *a: a, get_or_create=lambda k, f: f(),
                     compute_stm=lambda steps: ("xx", "tt", "PHI_T", "PHI"))
@@ -269,7 +269,7 @@ def run(chk):
                 xx[:, :] = 0
                 xx[1, :] = xarr(xo)
                 tt = _np.array([0.0, 0.5, 1.0])
-                stub = _Obj(direction=direction)
+                stub = real_self(S, direction=direction)
                 stub._totime = types.MethodType(S._totime, stub)
                 out = S._compute_manifold_section(stub, period=1.0, fraction=0.45, displacement=X(disp), xx=xx, tt=tt,
                                                   PHI=PHI, eigvec=xarr(v))
@@ -287,7 +287,7 @@ def run(chk):
             [MS + ":_ManifoldDynamicsService._compute_manifold_section"], "B3 sympy normal form", th_seed)
 
     def th_totime():
-        stub = _Obj()
+        stub = real_self(S)
         for t, tf, want in (([0.0, -0.5, -1.0, -1.5], 0.9, 2), ([0.0, 0.5, 1.0], 0.2, 0), ([0.0, 0.5, 1.0], 0.76, 2),
                             ([0.0, -0.25, -0.5], 0.3, 1)):
             got = int(S._totime(stub, _np.array(t), tf)[0])
@@ -318,7 +318,7 @@ def run(chk):
             ms._propagate_dynsys = fake_prop
             ms._max_rel_energy_error = lambda st, m: err
             try:
-                stub = _Obj(orbit=_Obj(period=1.0), mu=muv, forward=-1 if stable else 1, stable=1 if stable else -1,
+                stub = real_self(S, orbit=_Obj(period=1.0), mu=muv, forward=-1 if stable else 1, stable=1 if stable else -1,
                             system=_Obj(distance=1.0, primary=_Obj(radius=1000.0), secondary=_Obj(radius=500.0)),
                             eigenvalues=("SN", "UN", "CN"), eigenvectors=("WS", "WU", "WC"), dynsys="DYN",
                             stability=_Obj(get_real_eigenvectors=lambda W, vals_: (None, _np.array([[1.0], [2.0]]) if W == "WS"
